@@ -7,8 +7,8 @@ ASSUMPTIONS = []
 EXPLANATION = "bounded symbolic execution of hash/eq/assign/swap on symbolic values; hash_data differential against a reference MurmurHash64A"
 US = ["Type_Scan.0:24", "Type_Scan.1:24", "strcmp.0:24"]
 Q = ("quick", "thorough")
-QUICKSET = [(n, o) for n in range(0, 25) for o in (0, 1, 7)] + [(32, 3), (40, 0)]
-ALLSET = QUICKSET + [(n, o) for n in range(25, 65, 3) for o in (0, 3, 5)]
+QUICKSET = [(n, o) for n in (0, 1, 2, 3, 7, 8, 9, 15, 16, 17, 24) for o in (0, 1, 7)] + [(32, 3), (40, 0)]
+ALLSET = sorted(set(QUICKSET + [(n, o) for n in range(0, 25) for o in (0, 1, 7)] + [(n, o) for n in range(25, 65, 3) for o in (0, 3, 5)]))
 OBLIGATIONS = [
     Ob("value_hash.intfloat", "C10/value_hash.c", desc="Int/Float: eq=>hash equal, alloc-class independence, assign, swap; full width", unwindset=US, checks=["bounds", "pointer"], tiers=Q, timeout=600),
     Ob("string_hash.stack.len4.uf", "C10/string_hash.c", defs=["SLEN=4", "LIGHT", "UFHASH"], replace_calls=["hash_data:v_hash_data"], desc="String / Type Hash hand exactly the characters (terminator excluded) resp. the name to hash_data (uninterpreted here): same characters at another address hash the same", unwindset=US + ["strlen.0:8", "strcpy.0:8", "harness.0:8", "harness.1:8", "v_hash_data.0:18", "v_hash_data.1:18", "v_hash_data.2:18"], checks=["bounds", "pointer"], tiers=Q, timeout=900),
@@ -20,6 +20,9 @@ OBLIGATIONS = [
        unwind=max(n, 9) + 3, checks=["bounds", "pointer"], tiers=(Q if (n, o) in QUICKSET else ("thorough",)), timeout=1800, link=["Hash.c"], backend="z3")
     for (n, o) in ALLSET
 ]
+for o_ in OBLIGATIONS:
+    if o_.name.startswith("hash_data."):
+        o_.retry_s = 25          # these queries answer in 1-5 s or hang (solver heuristics): retry with other seeds early
 import props.C02 as _c02
 OBLIGATIONS += [Ob("table_cmp.ns5", "C10/table_cmp.c", defs=["NS=5", "OP=0", "ELEM_D=6"], replace=["Table.c"], unwind=8, unwindset=_c02.US(5, 5) + ["v2_len.0:8", "key_id.0:8", "v2_from.0:8", "v2_iter_next.0:8", "v2_table_get.0:8", "Table_Cmp.0:8", "Table_Cmp.1:8"],
                    replace_calls=["len:v2_len", "mem:v2_mem", "get:v2_get", "iter_init:v2_iter_init", "iter_next:v2_iter_next", "neq:v2_neq", "cmp:v2_cmp", "Table_Get:v2_table_get"],
